@@ -3,6 +3,6 @@
 pid="$1"; name="${2:-$1}"; wt=/tmp/seed/$name; out=/tmp/seed/out/$name
 cd "$wt" && git checkout -q -- . && git checkout -q --detach "$(git -C /repo rev-parse HEAD)" && { if [ -f "$out/patch_rebased.diff" ]; then git apply "$out/patch_rebased.diff"; else git apply "$out/patch.diff"; fi; } || { echo "$name: patch problem"; exit 9; }
 cd /verif
-res=$(VERIF_AIOFTP_SRC=$wt/src PYTHONHASHSEED=0 /venv/bin/python check.py $pid --tier quick 2>&1); rc=$?
+res=$(VERIF_OUT_DIR=${VERIF_OUT_DIR:-/tmp/verif-trial} VERIF_AIOFTP_SRC=$wt/src PYTHONHASHSEED=0 /venv/bin/python check.py $pid --tier quick 2>&1); rc=$?
 echo "$name -> $pid rc=$rc $(echo "$res" | grep -c '^VIOLATION') violation line(s)"
 echo "$res" | grep -E '^(VIOLATION|  sig=|INFRA)' | head -${SHOW:-2} | cut -c1-330
